@@ -33,6 +33,10 @@ static void flat_hosted(Src &s, Case &c)
     "std::vector driven in lock step (size, capacity >= size, element sequence, comparison results, exceptions); non-trivial = a "    \
     "reallocation happened and an insert/erase hit strictly inside a vector of >= 2 elements"
 VP_TARGET("vector_int", vector_int, "igris::vector<int>: " VEC_RULE);
+static void vector_cmp(Src &s, Case &c) { c02::cmp_target<igris::vector<double>, igris::vector<c02::KeyTag>>(s, c, "igris::vector"); }
+VP_TARGET("vector_cmp", vector_cmp,
+          "== / != / < of two igris::vector<double> over {0.0, -0.0, NaN, 1.0, 2.5, -1.0} (mostly equal up to the sign of zero) and of two vectors of a trivially "
+          "copyable record whose operator== compares one field only, against std::vector; non-trivial = same length with a NaN / negative zero, or records equal by key");
 static void vector_int_big(Src &s, Case &c)
 {
     c02::BigMode bm;
